@@ -18,14 +18,16 @@
           (FixZero: simplest_in(-1/2, 0) = 0);
      F22  next_up / next_down of an integer with limit 1 break the precondition of farey_neighbors
           (debug assertion; FixLimit1);
-     F34  simplest_from_f32/f64 take +-1/2 of the Repr's last place as the rounding interval, which is
+     F80  simplest_from_f32/f64 take +-1/2 of the Repr's last place as the rounding interval, which is
           too narrow when the binary exponent is positive (FixBigFloat). *)
 EXTENDS SimplifyDef, SimplifyChar
 CONSTANTS N,            \* endpoints / numbers: denominators 1..N, numerators -2N..2N; limits 1..N
           MB,           \* mini-float: mantissa bits (without the hidden bit)
-          EMin, EMax,   \* mini-float: exponents of the last place of normal numbers
+          EMinNeg, EMax, \* mini-float: exponents -EMinNeg..EMax of the last place (TLC cfg files have no negative literals)
+          OpsSel,       \* operations explored (all of Ops in the main run; one at a time in the re-finding runs)
           FixOrder, FixZero, FixLimit1, FixBigFloat
 
+EMin == -EMinNeg
 SAbs(x) == DAbs(x)
 SSign(x) == IF x < 0 THEN -1 ELSE 1                    \* IBig::sign(): zero is positive
 TDiv(a, b) == SSign(a) * SSign(b) * (SAbs(a) \div SAbs(b))
@@ -93,7 +95,7 @@ NextCode(x, L, dir) ==
   IN IF x[2] <= L /\ L = 1 /\ FixLimit1 THEN OkR(FAddInt(x, dir), "", 0)        \* repaired: F_1 is the integers
      ELSE IF ~FareyPre(target, L) THEN PanicR                                 \* debug_assert!
      ELSE LET w == FareyNeighbors(target, L)
-          IN OkR(Red(FAddInt(IF dir = 1 THEN w[2] ELSE w[1], Trunc(x))[1], (IF dir = 1 THEN w[2] ELSE w[1])[2]), "", w[3])
+          IN OkR(FAddInt(IF dir = 1 THEN w[2] ELSE w[1], Trunc(x)), "", w[3])                \* IBig + RBig: no reduction
 NearestCode(x, L) ==
   IF x[2] <= L THEN OkR(x, "Exact", 0)
   ELSE LET fr == Fract(x)
@@ -101,8 +103,8 @@ NearestCode(x, L) ==
            s == FAdd(w[1], w[2])
            mid == <<s[1], 2 * s[2]>>
        IN IF ~FareyPre(fr, L) THEN PanicR
-          ELSE IF FLt(mid, fr) THEN OkR(Red(FAddInt(w[2], Trunc(x))[1], w[2][2]), "Positive", w[3])
-          ELSE OkR(Red(FAddInt(w[1], Trunc(x))[1], w[1][2]), "Negative", w[3])
+          ELSE IF FLt(mid, fr) THEN OkR(FAddInt(w[2], Trunc(x)), "Positive", w[3])
+          ELSE OkR(FAddInt(w[1], Trunc(x)), "Negative", w[3])
 
 \* ---------------------------------------------------------------- simplest_from_f32 / f64 on a mini-float
 (* value m * 2^e, m in 1..2^(MB+1)-1: normal numbers have the hidden bit (m >= 2^MB) and any exponent
@@ -111,17 +113,19 @@ RECURSIVE P2(_)
 P2(k) == IF k = 0 THEN 1 ELSE 2 * P2(k - 1)
 Hidden == P2(MB)
 MiniFloats == {f \in (1..(2 * Hidden - 1)) \X (EMin..EMax) : f[1] >= Hidden \/ f[2] = EMin}
-FVal(f) == IF f[2] >= 0 THEN <<f[1] * P2(f[2]), 1>> ELSE Red(f[1], P2(-f[2]))
+
 FromFloatCode(f, neg) ==
   LET m == f[1]  e == f[2]
       sg == IF neg THEN -1 ELSE 1
-      est == IF e >= 0 THEN <<sg * m * P2(e), 1>> ELSE <<sg * m, P2(-e)>>
-      \* repaired variant: widen the Repr so that its last place is the last place of the float
-      est2 == IF FixBigFloat /\ e > 0 THEN est ELSE est
-      n2 == 2 * est2[1]  d2 == 2 * est2[2]
-      halfw == IF FixBigFloat /\ e > 0 THEN P2(e) ELSE 1          \* half a unit of the last place, over d2
-      left == Red(n2 + halfw, d2)
-      right == Red(n2 - halfw, d2)
+      est == IF e >= 0 THEN <<m * P2(e), 1>> ELSE <<m, P2(-e)>>       \* magnitude of Repr::try_from(f)
+      \* pinned code: (2n +- 1)/(2d), i.e. half a unit of the last place OF THE REPR; written over 4d.
+      \* repaired variant (FixBigFloat): half a unit of the last place of the float, a quarter below a power of two
+      u == IF FixBigFloat /\ e > 0 THEN P2(e) ELSE 1
+      lowpow == m = Hidden /\ e > EMin
+      up == 2 * u
+      down == IF FixBigFloat /\ lowpow THEN u ELSE 2 * u
+      left == Red(sg * (4 * est[1] + up), 4 * est[2])
+      right == Red(sg * (4 * est[1] - down), 4 * est[2])
       s0 == SimplestInCode(left, right).r
       s1 == IF m % 2 = 0 /\ SimplerCode(left, s0) THEN left ELSE s0
       s2 == IF m % 2 = 0 /\ SimplerCode(right, s1) THEN right ELSE s1
@@ -136,8 +140,8 @@ MiniIval(f) ==
       lo == IF lowpow THEN <<(4 * m - 1) * unit, sc>> ELSE <<(4 * m - 2) * unit, sc>>
       hi == <<(4 * m + 2) * unit, sc>>
   IN Ival(lo, hi, m % 2 = 0, m % 2 = 0)
-MiniIvalSigned(f, neg) == LET I == MiniIval(f) IN
-  IF neg THEN Ival(FNeg(I.hi), FNeg(I.lo), I.ih, I.il) ELSE I
+MiniIvalSigned(f, neg) == LET J == MiniIval(f) IN
+  IF neg THEN Ival(FNeg(J.hi), FNeg(J.lo), J.ih, J.il) ELSE J
 
 \* ---------------------------------------------------------------- the machine
 Ops == {"simplest_in", "next_up", "next_down", "nearest", "is_simpler_than", "from_float"}
@@ -145,7 +149,7 @@ VARIABLES pc, op, x, y, lim, res
 vars == <<pc, op, x, y, lim, res>>
 NoRes == OkR(<<0, 1>>, "", 0)
 
-Init == /\ pc = "pick" /\ op \in Ops /\ y = <<0, 1>> /\ lim = 1 /\ res = NoRes
+Init == /\ pc = "pick" /\ op \in Ops \cap OpsSel /\ y = <<0, 1>> /\ lim = 1 /\ res = NoRes
         /\ IF op = "from_float" THEN x \in MiniFloats ELSE x \in Fracs
 Pick == /\ pc = "pick" /\ pc' = "run"
         /\ y' \in (IF op \in {"simplest_in", "is_simpler_than"} THEN Fracs
@@ -174,8 +178,8 @@ DefOK ==
 Known_F21 == \/ ~FixOrder /\ op = "is_simpler_than"
              \/ ~FixZero /\ op = "simplest_in" /\ ((x[1] = 0 /\ y[1] < 0) \/ (y[1] = 0 /\ x[1] < 0))
 Known_F22 == ~FixLimit1 /\ op \in {"next_up", "next_down"} /\ lim = 1 /\ x[2] = 1 /\ res.k = "panic"
-Known_F34 == ~FixBigFloat /\ op = "from_float" /\ x[2] >= 1
-Correct == pc = "done" => (DefOK \/ Known_F21 \/ Known_F22 \/ Known_F34)
+Known_F80 == ~FixBigFloat /\ op = "from_float" /\ (x[2] >= 2 \/ (x[2] = 1 /\ x[1] % 2 = 0 /\ x[1] # Hidden))
+Correct == pc = "done" => (DefOK \/ Known_F21 \/ Known_F22 \/ Known_F80)
 \* without the Known_ disjuncts (re-finding runs of the check, one operation at a time)
 Strict == pc = "done" => DefOK
 NoRunaway == pc = "done" => res.steps >= 0
@@ -187,7 +191,6 @@ NQ(f) == Q(IFromNative(f[1]), FromNat(f[2]))
 Cands == LET r == res.r IN
          {c \in {r, <<r[1] + 1, r[2]>>, <<r[1] - 1, r[2]>>, <<r[1], r[2] + 1>>, <<r[1] + 1, r[2] + 1>>, x, FNeg(r),
                  <<0, 1>>, <<r[1] * 2, r[2] * 2>>, <<x[1] + y[1], x[2] + y[2]>>} : c[2] >= 1}
-LowestOrRaw(c) == TRUE
 CharAgrees ==
   pc = "done" /\ res.k = "ok" =>
   CASE op = "simplest_in" -> \A c \in Cands : SimplestInOK(NQ(x), NQ(y), NQ(c)) <=> IsSimplestIn(c, x, y)
@@ -197,7 +200,7 @@ CharAgrees ==
                             NearestOK(NQ(x), FromNat(lim), NQ(c), fl) <=> IsNearest(c, fl, x, lim)
     [] op = "is_simpler_than" -> SimplerOK(NQ(x), NQ(y)) <=> SimplerDef(x, y)
     [] op = "from_float" ->
-         LET I == MiniIvalSigned(x, y[1] = 1)
-             QI == QIval(NQ(I.lo), NQ(I.hi), I.il, I.ih)
-         IN \A c \in Cands : SimplestInIvalOK(NQ(c), QI) <=> IsSimplestInIval(c, I)
+         LET J == MiniIvalSigned(x, y[1] = 1)
+             QI == QIval(NQ(J.lo), NQ(J.hi), J.il, J.ih)
+         IN \A c \in Cands : SimplestInIvalOK(NQ(c), QI) <=> IsSimplestInIval(c, J)
 =============================================================================
